@@ -208,7 +208,7 @@ func decidePositions(src string, tf parser.TemplateFile, recs []tgen.Record) err
 		ok := false
 		for _, e := range exprs {
 			// the parser may include the padding inside { } in the expression text
-			lead := len(e.Value) - len(strings.TrimLeft(e.Value, " \t"))
+			lead := len(e.Value) - len(strings.TrimLeft(e.Value, " \t\r\n"))
 			if int(e.R.From.Index)+lead == r.Start && strings.TrimSpace(e.Value) == strings.TrimSpace(r.Text) {
 				ok = true
 				break
